@@ -226,6 +226,39 @@ def async_timing(rng, tier):
     return lines
 
 
+def classc_listening(rng, tier):
+    """Class C through the asynchronous front-end: a downlink in RX1 (or RX2) carries a valid RXParamSetupReq; from the moment it is
+    processed the continuous listening must use the NEW RX2 frequency and data rate (the request is answered 0b111 in the next uplink)"""
+    lines = []
+    nwk, app = adevhist.NWK, adevhist.APP
+    for region in range(9):
+        for rx2dr in list(machist.DEFINED[region])[:: (1 if tier == "thorough" else 2)]:
+            for win in (1, 2):
+                f = lw.data_frame(3, adevhist.ADDR, 0, 1, machist.rx_param_setup(0, rx2dr, machist.FREQ_OK[region]), None, b"", nwk, app)
+                sess = "session=%s:%s:%d:0" % (nwk.hex(), app.hex(), adevhist.ADDR)
+                ev = "P,X%s" % f.hex() if win == 1 else "P,T,P,X%s" % f.hex()
+                lines.append("adev r=%d lead=15 classc=1 fault=- bias=- %s | send 01 1 0 %s %s | send 02 1 0 %s P,T,P,T" % (
+                    region, sess, machist.draws(rng, 30), ev, machist.draws(rng, 30)))
+    return lines
+
+
+def classc_oracle(case, impl):
+    region = int(re.search(r"r=(\d+)", case).group(1))
+    fr = bytes.fromhex(case.split(",X")[1].split()[0])
+    rx2dr, freq = fr[9] & 15, int.from_bytes(fr[10:13], "little") * 100
+    outs = impl.split(" ; ")
+    if not outs[0].startswith("DownlinkReceived"):
+        return None
+    conts = re.findall(r"setup_rx\[(\d+)/(\d+)/(\d+)/\d+ cont\]", outs[0])
+    want = DRS[FAM[region]].get(rx2dr)
+    if conts and want is not None:
+        f, sf, bw = (int(x) for x in conts[-1])
+        if f != freq or (sf, bw) != want:
+            return {"kind": "Class C: after a downlink carrying a valid RXParamSetupReq the continuous listening is not set up with the new RX2 parameters",
+                    "listening": [f, sf, bw], "commanded": [freq, want[0], want[1]]}
+    return None
+
+
 def timing_oracle(case, impl):
     outs = impl.split(" ; ")
     if case.startswith("adev"):
@@ -283,6 +316,7 @@ def run(rep, tier, rng):
     core.diff_stage(rep, "X:C10:front-end-timing", tl, tjudge)
     fe = adevhist.histories(rng.fork("adev"), tier) + ndevhist.histories(rng.fork("ndev"), tier)
     core.diff_stage(rep, "X:C10:front-end-histories", fe, lambda c, i, m: None)
+    core.diff_stage(rep, "X:C10:class-c-listening-after-rxparamsetup", classc_listening(rng.fork("cc"), tier), lambda c, i, m: classc_oracle(c, i))
     rep.cov["frontend_timing_cases"] = len(tl)
     rep.cov["rule"] = ("9 regions x every uplink data rate x RX1 offsets 0..7 x RX2 overrides x RxDelay 0..15 x DlChannelReq mappings; joins over the fixed-plan channels "
                        "(biased and unbiased); Class C configuration; both front-ends' Timer::at / TimeoutRequest arguments for every RxDelay and several lead times; "
